@@ -535,6 +535,9 @@ def enum_cases(spec, flavour, *, max_subset_nodes=4, thin=False):
         for r in range(len(al) + 1):
             for sub in itertools.combinations(al, r):
                 mspecs.append(["lab", list(sub)])
+    if n > 12:  # larger trees: a few node subsets as callbacks, the labels present as data keys
+        for sub in (list(range(0, n, 3)), list(range(1, n, 2)), [0], [n - 1], list(range(n // 2, n))):
+            mspecs.append(["set", sub, "bool" if len(sub) % 2 == 0 else "none"])
     starts = [-1] + list(range(n))
     for s in starts:
         for ms in mspecs:
@@ -545,6 +548,8 @@ def enum_cases(spec, flavour, *, max_subset_nodes=4, thin=False):
         yield ("find_first.m", s, mspecs[len(mspecs) // 2], True)
     # keys
     keys = [["data", lab] for lab in ALPHABET[flavour]]
+    if n > 12:
+        keys += [["data", lab] for lab in sorted({r[1] for r in spec.nodes})[:: max(1, n // 6)]]
     did_keys = [["data_id_of", i] for i in range(n)] + [["lit", 0], ["lit", 1], ["lit", 2], ["lit", 7], ["lit", "id7"], ["lit", "zz"], ["lit", "key_a"], ["lit", ""]]
     for kspec in keys:
         for k in ks:
@@ -670,15 +675,23 @@ def run(prop: str, tier: str, only=None) -> Result:
         rng = random.Random(base + j)
         fl = ("str", "int", "case")[j % 3]
         rnd.append((fl, gen.random_spec(rng, rng.randint(5 if quick else 6, 7), alphabet=ALPHABET[fl])))
+    # larger trees (size-dependent paths): labels a<i> / b<i> / ab<i> so that the pattern catalogue still discriminates
+    n_big = 6 if quick else 40
+    big = []
+    for sp in gen.big_specs(seed() + 9, n_big, lo=16, hi=30):
+        ren = {}
+        for i, r in enumerate(sp.nodes):
+            ren.setdefault(r[1], ("a", "b", "ab")[i % 3] + str(i))
+        big.append(("str", gen.Spec(tuple((p, ren[lab], d, k) for p, lab, d, k in sp.nodes))))
     total = Result(prop)
-    allitems = sorted(items + rnd, key=lambda it: len(it[1]), reverse=True)
+    allitems = sorted(items + rnd + big, key=lambda it: len(it[1]), reverse=True)
     total.merge(parallel(_run_chunk, allitems, prop, 300.0, quick, prop=prop, chunks_per_proc=16))
     total.exhaustive = False  # random part sampled
     m = 3 if quick else 4
     total.bounds["Node._search / Node.find_all / Node.find_first / Tree.find_all / Tree.find_first / Tree.__getitem__ / __contains__ / __delitem__"] = (
         f"every ordered forest with <= {n_str} nodes x labelings over {{a,b,ab}} (clones); <= {m} nodes for the dressings {{a,A,''}} (case / falsy data), "
         f"int data 0..2 with node_ids 1..n, equal-data pairs with data_ids 1,2, explicit data_id 'id7', keyed objects with calc_data_id hook; "
-        f"+ {n_rand} seeded random trees with {5 if quick else 6}..7 nodes (VERIF_SEED={seed()}); every start node and the tree; "
+        f"+ {n_rand} seeded random trees with {5 if quick else 6}..7 nodes + {n_big} seeded larger trees with 16..30 nodes (long sibling runs / chains / mixed; 5 node subsets as callbacks, present labels as keys) (VERIF_SEED={seed()}); every start node and the tree; "
         "match = 15 patterns + 7 (pattern, flags) forms + every node subset as callback (<= 4 nodes; label subsets above), add_self on/off, max_results in {None, 1..n+1}" + (" ({None,1,2,n+1} for trees of >= 4 nodes)" if quick else "") + "; "
         "data / data_id / node_id keys: every label's data (present or absent), every node's data_id and node_id, literal ints 0..n+2, 7 and strings, a Node key; "
         "tree[key], del tree[key], key in tree for all of them; every string tree of >= 3 nodes also created level by level with prepended siblings (registration order != pre-order); histories: for trees of <= " + ("3" if quick else "4") + " nodes (str / int / equal-data flavours) every pattern search again after "
